@@ -53,6 +53,9 @@ type InstSpec struct {
 	PromoteNs  int64       `json:"promote_ns,omitempty"`
 	DemoteNs   int64       `json:"demote_ns,omitempty"`
 	NoDemoteCb bool        `json:"no_demote_cb,omitempty"`
+	// Script: API calls of this instance's owner, executed one after the other
+	// (each step waits After ns after the previous call returned).
+	Script []Action `json:"script,omitempty"`
 }
 
 type HealthPlan struct {
@@ -82,7 +85,8 @@ type WatchPlan struct {
 }
 
 type Action struct {
-	At      int64  `json:"at"`
+	At      int64  `json:"at,omitempty"`
+	After   int64  `json:"after,omitempty"`
 	Do      string `json:"do"`
 	I       string `json:"i,omitempty"`
 	Delete  bool   `json:"delete,omitempty"`
@@ -93,6 +97,8 @@ type Action struct {
 	Key     string `json:"key,omitempty"`
 	Hex     string `json:"hex,omitempty"`
 	Str     string `json:"str,omitempty"`
+	// Then: performed by the same caller after this action has returned (and After ns)
+	Then *Action `json:"then,omitempty"`
 }
 
 const (
@@ -122,6 +128,21 @@ func b2i(b bool) int64 {
 
 // do performs one scripted action. "api i call a b c d gid" ... "apiret i call res err"
 func (w *World) do(a Action) {
+	w.do1(a)
+	for a.Then != nil {
+		n := *a.Then
+		if n.After > 0 {
+			time.Sleep(time.Duration(n.After))
+		}
+		if n.I == "" {
+			n.I = a.I
+		}
+		w.do1(n)
+		a = n
+	}
+}
+
+func (w *World) do1(a Action) {
 	tr := w.tr
 	in := w.inst(a.I)
 	switch a.Do {
@@ -228,6 +249,8 @@ func (w *World) do(a Action) {
 		w.extDel(a.Key)
 	case "expire":
 		w.forceExpire(a.Key)
+	case "crash":
+		tr.rec("crash", int64(in.idx))
 	case "status":
 	}
 }
@@ -305,6 +328,29 @@ func Run(t *testing.T, sc *Scenario) (out []byte, counts map[string]int) {
 				b2i(!spec.NoDemoteCb), sc.BucketTTL, b2i(spec.Promote != "none"))
 			tr.mu.Unlock()
 		}
+		w.snapReq = make(chan struct{}, 1)
+		for _, in := range w.insts {
+			if len(in.spec.Script) == 0 {
+				continue
+			}
+			in := in
+			go func() {
+				for _, st := range in.spec.Script {
+					if st.After > 0 {
+						time.Sleep(time.Duration(st.After))
+					}
+					if w.tr.now() >= sc.Until {
+						return
+					}
+					st.I = in.spec.ID
+					w.do(st)
+					select {
+					case w.snapReq <- struct{}{}:
+					default:
+					}
+				}
+			}()
+		}
 		acts := append([]Action(nil), sc.Actions...)
 		sort.SliceStable(acts, func(i, j int) bool { return acts[i].At < acts[j].At })
 		nextGrid := sc.Grid
@@ -319,7 +365,12 @@ func Run(t *testing.T, sc *Scenario) (out []byte, counts map[string]int) {
 				next = nextGrid
 			}
 			if d := next - tr.now(); d > 0 {
-				time.Sleep(time.Duration(d))
+				select {
+				case <-time.After(time.Duration(d)):
+				case <-w.snapReq:
+					w.snapshotAll()
+					continue
+				}
 			}
 			if next >= sc.Until {
 				break
